@@ -1180,6 +1180,96 @@ theorem verifyFrags_id (E : LoadEnv D IdRec (List Str)) (hc : E.check = idCheck)
           exact ⟨b1 _ this.1, b1 _ this.2⟩
         · exact b3 g e a b hab
 
+/-! ### duplicate ids: the resolver's state is exactly the node ids seen, each once -/
+
+omit [DecidableEq D] in
+theorem checkAll_ids_eq (E : LoadEnv D IdRec (List Str)) (hc : E.check = idCheck) (ph : Phase) :
+    ∀ (recs : List IdRec) (s s' : List Str), checkAll E ph s recs = some s' →
+      s' = (nodeIdsOf recs).reverse ++ s ∧ (s.Nodup → s'.Nodup) := by
+  intro recs
+  induction recs with
+  | nil =>
+    intro s s' h
+    simp [checkAll] at h
+    subst h
+    exact ⟨by simp [nodeIdsOf], fun h => h⟩
+  | cons r recs ih =>
+    intro s s' h
+    unfold checkAll at h
+    rw [hc] at h
+    cases r with
+    | node id =>
+      simp only [idCheck] at h
+      split at h
+      · simp at h
+      · rename_i heq
+        split at heq
+        · cases heq
+        · rename_i hnot
+          injection heq with heq
+          subst heq
+          obtain ⟨h1, h2⟩ := ih _ _ h
+          refine ⟨by rw [h1]; simp [nodeIdsOf], fun hs => h2 (List.nodup_cons.mpr ⟨hnot, hs⟩)⟩
+    | edge a0 b0 =>
+      simp only [idCheck] at h
+      split at h
+      · simp at h
+      · rename_i heq
+        split at heq
+        · injection heq with heq
+          subst heq
+          obtain ⟨h1, h2⟩ := ih _ _ h
+          exact ⟨by rw [h1]; simp [nodeIdsOf], h2⟩
+        · cases heq
+
+theorem verifyFrag_ids_eq (E : LoadEnv D IdRec (List Str)) (hc : E.check = idCheck) (codec : Nat) (dir : Dir)
+    (s s' : List Str) (f : Frag D) (h : verifyFrag E codec dir s f = some s') :
+    s' = (nodeIdsOf (recsOf E codec dir f)).reverse ++ s ∧ (s.Nodup → s'.Nodup) := by
+  unfold verifyFrag at h
+  split at h
+  · cases h
+  · rename_i bts hb
+    split at h
+    · cases h
+    · split at h
+      · cases h
+      · split at h
+        · cases h
+        · rename_i recs hdec
+          split at h
+          · cases h
+          · rename_i s1 hchk
+            split at h
+            · cases h
+            · injection h with h
+              subst h
+              have hr : recsOf E codec dir f = recs := by
+                unfold recsOf; rw [hb]; simp [hdec]
+              rw [hr]
+              exact checkAll_ids_eq E hc f.phase recs s s1 hchk
+
+theorem verifyFrags_ids_eq (E : LoadEnv D IdRec (List Str)) (hc : E.check = idCheck) (codec : Nat) (dir : Dir) :
+    ∀ (fs : List (Frag D)) (s s' : List Str), verifyFrags E codec dir s fs = some s' →
+      s' = (nodeIdsOf (fs.flatMap (recsOf E codec dir))).reverse ++ s ∧ (s.Nodup → s'.Nodup) := by
+  intro fs
+  induction fs with
+  | nil =>
+    intro s s' h
+    simp [verifyFrags] at h
+    subst h
+    exact ⟨by simp [nodeIdsOf], fun h => h⟩
+  | cons f fs ih =>
+    intro s s' h
+    unfold verifyFrags at h
+    split at h
+    · cases h
+    · rename_i s1 h1
+      obtain ⟨a1, a2⟩ := verifyFrag_ids_eq E hc codec dir s s1 f h1
+      obtain ⟨b1, b2⟩ := ih s1 s' h
+      refine ⟨?_, fun hs => b2 (a2 hs)⟩
+      rw [b1, a1, List.flatMap_cons, nodeIdsOf_append]
+      simp
+
 end Load
 
 end Dawgs.C20
